@@ -9,6 +9,7 @@ import (
 	"net"
 	"os"
 	"path/filepath"
+	"strings"
 	"sync"
 	"testing"
 	"time"
@@ -47,7 +48,7 @@ type PipeCase struct {
 	Early bool `json:"early,omitempty"`
 }
 
-var flavours = []string{"standard-shell", "standard-netconf", "telnet", "system-ssh-shell", "system-rawpeer"}
+var flavours = []string{"standard-shell", "standard-netconf", "telnet", "system-ssh-shell", "system-rawpeer", "system-ssh-netconf"}
 
 // alphabet of a flavour: byte values the medium carries transparently.
 func alphabet(flavour string) []byte {
@@ -57,6 +58,14 @@ func alphabet(flavour string) []byte {
 		switch flavour {
 		case "telnet":
 			if b == 0xff {
+				continue
+			}
+		case "system-ssh-netconf":
+			// ssh -s netconf on a pty that stays in cooked mode: the line discipline echoes and
+			// edits what the client types (known finding system-netconf-long-line) and turns LF
+			// into CR LF on output, so this flavour only carries peer-to-client text, compared
+			// with CRs removed (as the channel does), and the blocked-read-on-close clause
+			if !(b == '\n' || (b >= 0x20 && b < 0x7f)) {
 				continue
 			}
 		case "system-ssh-shell":
@@ -112,8 +121,13 @@ func genPipe(t *rapid.T) PipeCase {
 			sz = 1
 		}
 
+		dirs := []string{"c2p", "p2c", "p2c"}
+		if c.Flavour == "system-ssh-netconf" {
+			dirs = []string{"p2c"}
+		}
+
 		c.Steps = append(c.Steps, Step{
-			Dir:   rapid.SampledFrom([]string{"c2p", "p2c", "p2c"}).Draw(t, "dir"),
+			Dir:   rapid.SampledFrom(dirs).Draw(t, "dir"),
 			N:     sz,
 			Seed:  rapid.IntRange(1, 1<<20).Draw(t, "seed"),
 			Chunk: rapid.SampledFrom([]int{0, 0, 1, 7, 1000}).Draw(t, "chunk"),
@@ -252,7 +266,7 @@ func runPipe(c PipeCase) ev.Verdict {
 	}
 
 	switch c.Flavour {
-	case "standard-shell", "standard-netconf", "system-ssh-shell":
+	case "standard-shell", "standard-netconf", "system-ssh-shell", "system-ssh-netconf":
 		srv, serr := sim.NewSSHServer()
 		if serr != nil {
 			return ev.Verdict{OK: false, Msg: "INFRA: " + serr.Error()}
@@ -274,7 +288,7 @@ func runPipe(c PipeCase) ev.Verdict {
 		srv.Subsystem = func(_ string, ch ssh.Channel) { handler(ch) }
 
 		ttype = transport.StandardTransport
-		if c.Flavour == "system-ssh-shell" {
+		if strings.HasPrefix(c.Flavour, "system-ssh-") {
 			ttype = transport.SystemTransport
 
 			if _, e := os.Stat("/usr/bin/ssh"); e != nil {
@@ -288,7 +302,7 @@ func runPipe(c PipeCase) ev.Verdict {
 			options.WithSystemTransportOpenBin("/usr/bin/ssh"),
 		}
 
-		if c.Flavour == "standard-netconf" {
+		if strings.HasSuffix(c.Flavour, "-netconf") {
 			opts = append(opts, func(o interface{}) error {
 				if a, ok := o.(*transport.SSHArgs); ok {
 					a.NetconfConnection = true
@@ -395,6 +409,10 @@ func runPipe(c PipeCase) ev.Verdict {
 	go func() {
 		for {
 			b, rerr := tr.Read()
+			if c.Flavour == "system-ssh-netconf" {
+				b = bytes.ReplaceAll(b, []byte("\r"), nil)
+			}
+
 			rch <- chunk{b, rerr}
 
 			if rerr != nil {
